@@ -913,6 +913,12 @@ impl<'a> PublicRangeFinder<'a> {
                     .url_converter
                     .registry_package_url_to_nv(module.specifier())
                   {
+                    // the export may live in another package (a barrel that
+                    // does `export * from "jsr:..."`): that package has to
+                    // be analysed as a whole and recorded as a dependency,
+                    // otherwise a cached entry of this package never gets
+                    // to it
+                    self.add_pending_nv(&nv, pkg_nv);
                     let mut new_named_exports = NamedSubset::default();
                     new_named_exports.0.insert(export_name, named_exports);
                     self.add_pending_trace(
